@@ -50,6 +50,9 @@ class Ctx:
                             self.action_methods.add(fn.a[1])
             elif v.op == "param":
                 self.tables.add(e.key)
+            elif v.op == "call" and v.a[0].op == "builtin" and v.a[0].a[0] in ("dict", "list", "set") and len(v.a[1]) <= 1 \
+                    and not v.a[2] and all(x.op in ("param", "dict", "list", "tuple", "const") for x in v.a[1]):
+                self.tables.add(e.key)      # dict(given_table), dict(): a table all the same
             elif v == const(None):
                 self.optional_slots.add(e.key)
         if not self.tables:
